@@ -182,9 +182,10 @@ macro_rules! geom {
                 en!("element_product", va.element_product(), ep, 2.0 * nn * eps * ep.abs());
             }
             env_v!("midpoint", va.midpoint(vb), (0..N).map(|i| (a[i] + b[i]) * 0.5).collect(), (0..N).map(|i| 4.0 * eps * (a[i].abs() + b[i].abs())).collect());
-            for s in [0.25f64, 1.0 / 3.0, -0.5, 1.75] {
+            for s in [0.25f64, 1.0 / 3.0, -0.5, 1.75, 0.999, 1.0 - 1.0 / 1024.0, 1.0 / 4096.0] {
                 let s = s as $S as f64;
-                env_v!("lerp", va.lerp(vb, s as $S), (0..N).map(|i| a[i] + (b[i] - a[i]) * s).collect(), (0..N).map(|i| 6.0 * eps * (a[i].abs() + (a[i].abs() + b[i].abs()) * s.abs())).collect());
+                // the terms combined are a(1-s) and b*s: K*eps times the sum of their magnitudes
+                env_v!("lerp", va.lerp(vb, s as $S), (0..N).map(|i| a[i] * (1.0 - s) + b[i] * s).collect(), (0..N).map(|i| 6.0 * eps * ((a[i] * (1.0 - s)).abs() + (b[i] * s).abs())).collect());
             }
             // projection family (scale: |b_i| * sum|a_j b_j| / b.b)
             let bb = dot(&b, &b);
